@@ -123,7 +123,7 @@ def analyse(job):
             if cs:
                 rr, _ = verd.check("convention-zero-extended-result", base + [z3.Or(*cs)], cross=False, want_model=False)
                 res["result_zero_extended"] = rr == "unsat"
-        runs, bad = tv.validate_paths(L, kidx, traps, side, max_paths=6 if tier == "quick" else 10)
+        runs, bad = tv.validate_paths(L, kidx, traps, side, max_paths=4 if tier == "quick" else 10)
         res["validation"].append({"backend": be, "runs": runs, "mismatches": bad})
     except Unsupported as e:
         res["status"] = "unsupported"
@@ -136,6 +136,8 @@ def analyse(job):
 def run_check(tier):
     t0 = time.time()
     common.ensure_dirs()
+    import shutil
+    shutil.rmtree(os.path.join(common.WORK, "x64", "smt2", "c01"), ignore_errors=True)   # dumps of this run only
     build.toolchain()
     traps = build.trap_kinds()
     for need in ("DIV0", "OVERFLOW", "SHIFT", "INDEX_OUT_OF_BOUNDS"):
